@@ -185,6 +185,30 @@ fn enc_ser_result(r: &Result<Value, reval::Error>) -> String {
     }
 }
 
+/// canonical text of a `serde_json::Value` (the encoding the Lean driver uses for its `Json`)
+pub fn enc_json(j: &serde_json::Value) -> String {
+    use serde_json::Value as J;
+    match j {
+        J::Null => "(jnull)".into(),
+        J::Bool(b) => format!("(jbool {})", *b as u8),
+        J::Number(n) => {
+            if let Option::Some(i) = n.as_i64() {
+                format!("(jint {})", i)
+            } else if let Option::Some(u) = n.as_u64() {
+                format!("(jint {})", u)
+            } else {
+                format!("(jfloat {:016x})", fbits(n.as_f64().unwrap_or(f64::NAN)))
+            }
+        }
+        J::String(s) => format!("(jstr {})", hex(s)),
+        J::Array(xs) => format!("(jarr{})", xs.iter().map(|x| format!(" {}", enc_json(x))).collect::<String>()),
+        J::Object(m) => {
+            let b: std::collections::BTreeMap<&String, &serde_json::Value> = m.iter().collect();
+            format!("(jobj{})", b.iter().map(|(k, x)| format!(" ({} {})", hex(k), enc_json(x))).collect::<String>())
+        }
+    }
+}
+
 pub fn value_to_json(v: &Value) -> Option<serde_json::Value> {
     use serde_json::Value as J;
     Some(match v {
@@ -363,11 +387,14 @@ pub fn run(rep: &mut Report, driver: &str, workers: usize, thorough: bool, seed:
     let replies = par_batch(driver, workers, &reqs);
     let mut sr = StreamReport::new(
         "serde-data-model",
-        "values of the serde data model: all 29 kinds, every integer width at MIN/MAX/+-1 (incl. u128 above i128::MAX), non-finite floats, nesting to depth 5, empty containers, maps with a key of every kind, all four variant shapes, duplicate keys/fields, failing Serialize impls at every position; compared: T::serialize(ValueSerializer) under catch_unwind vs the model, and vs serde_json::to_value whenever the input is JSON-representable and both succeed",
+        "values of the serde data model: all 29 kinds, every integer width at MIN/MAX/+-1 (incl. u128 above i128::MAX), non-finite floats, nesting to depth 5, empty containers, maps with a key of every kind, all four variant shapes, duplicate keys/fields, failing Serialize impls at every position; compared: T::serialize(ValueSerializer) under catch_unwind vs the model, and vs serde_json::to_value whenever the input is JSON-representable and both succeed; on those cases the Lean model of serde_json::to_value (Spec.jsonOf) and of the JSON reading of a Value (Spec.toJson) are compared with serde_json itself",
         false,
     );
     let mut json_compared = 0u64;
-    for (v, m) in vals.iter().zip(replies.iter()) {
+    let mut json_model_compared = 0u64;
+    let jreqs: Vec<String> = vals.iter().map(|v| format!("json\t{}", enc_serval(v))).collect();
+    let jreplies = par_batch(driver, workers, &jreqs);
+    for ((v, m), jm) in vals.iter().zip(replies.iter()).zip(jreplies.iter()) {
         let imp = impl_serialize(v);
         let canon = enc_serval(v);
         sr.count(&canon, true);
@@ -393,12 +420,21 @@ pub fn run(rep: &mut Report, driver: &str, workers: usize, thorough: bool, seed:
                     if mine != j {
                         push("impl-violates-property", "on JSON-representable data the image coincides with serde_json's", "C13 json".into(), &j.to_string());
                     }
+                    // the two functions the theorem `ser_matches_json` relates, against what they model:
+                    // Spec.jsonOf vs serde_json::to_value, Spec.toJson vs the JSON reading of the real image
+                    let want = format!("{}\t{}", enc_json(&j), enc_json(&mine));
+                    json_model_compared += 1;
+                    if &want != jm {
+                        rep.add_finding(Finding { kind: "model-disagreement".into(), stream: "serde-data-model".into(), case: format!("json\t{}", canon), human: format!("{:?}", v).chars().take(200).collect(), impl_out: want, model_out: jm.clone(), predicate: "Spec/Json.lean must describe serde_json::to_value and the JSON reading of a Value (the theorem ser_matches_json is about these two functions)".into(), signature: "C13 json-model".into() });
+                    }
                 }
             }
         }
     }
     sr.hist("json", "compared_with_serde_json");
     *sr.histograms.get_mut("json").unwrap().get_mut("compared_with_serde_json").unwrap() = json_compared;
+    sr.hist("json", "json_model_compared_with_serde_json");
+    *sr.histograms.get_mut("json").unwrap().get_mut("json_model_compared_with_serde_json").unwrap() = json_model_compared;
     rep.streams.push(sr);
 }
 
